@@ -135,7 +135,11 @@ func (s *SingleTypeSubstitutionMangler[F, T]) subVal(t reflect.Type, mVal reflec
 		if !subPtr {
 			return mVal, false
 		}
-		return nElem.Addr(), true
+		// nElem is a freshly converted or rebuilt value, which is not
+		// addressable: point at a copy of it.
+		outPtr := reflect.New(t.Elem())
+		outPtr.Elem().Set(nElem)
+		return outPtr, true
 	case reflect.Map:
 		// we mangled the map type, and the map value we're converting back is non-nil
 		out := reflect.MakeMapWithSize(t, mVal.Len())
